@@ -9,6 +9,7 @@ import IcingaProofs.C15.Lemmas
 import IcingaProofs.C15.OpTable
 import IcingaProofs.C15.WfNatives
 import IcingaProofs.C15.Round3
+import IcingaProofs.C15.Round4
 
 namespace Icinga.C15.Proofs
 
@@ -79,6 +80,50 @@ theorem precedence_matches_reference : sameTable (normalised.take 13) reference 
 example : sameTable (normalised.take 13)
     (reference.take 2 ++ [(.left, [(.binary, "+"), (.binary, "-")]), (.left, [(.binary, "*"), (.binary, "/"), (.binary, "%")])] ++ reference.drop 4) = false := by decide
 
+
+/-! ### the reference table above IS the table of the document (read from doc/17-language-reference.md on every run) -/
+
+/-- a row (precedence, operator text) of the document as an operator: precedence 1 are the postfix forms `()` `[]` `.`, precedence 2 the
+    prefix operators, 3–13 the binary ones (the document's "Examples" column shows the arity; it is not machine-readable). -/
+def docOp (r : Nat × String) : Op :=
+  if r.1 == 1 then (.postfix, if r.2 == "()" then "'('" else if r.2 == "[]" then "'['" else if r.2 == "." then "'.'" else r.2)
+  else if r.1 == 2 then (.prefix, r.2) else (.binary, r.2)
+
+def documentedLevel (n : Nat) : List Op := (documented.filter (·.1 == n)).map docOp
+
+def sameOps (a b : List Op) : Bool := a.all (b.contains ·) && b.all (a.contains ·)
+
+/-- rows in file order never go back to a smaller precedence number ("sorted by descending precedence") -/
+def nonDecreasing : List Nat → Bool
+  | a :: b :: r => a ≤ b && nonDecreasing (b :: r)
+  | _ => true
+
+/-- **The reference table is the document's table**: level `i` of `reference` holds exactly the operators the document lists with
+    precedence `i` (for i = 1 … 13), and the document's rows are sorted.  `documented` is regenerated from
+    doc/17-language-reference.md at the start of every run, so neither a change of the document nor of the transcription goes unnoticed. -/
+theorem reference_matches_document :
+    reference.length = 13 ∧ (reference.zipIdx.all fun l => sameOps l.1.2 (documentedLevel (l.2 + 1))) = true ∧
+    nonDecreasing (documented.map (·.1)) = true := by decide
+
+/-- not vacuous: the document's level 9 is `&` alone, level 10 `^` alone; a table with the two exchanged is rejected -/
+example : documentedLevel 9 = [(.binary, "&")] ∧ documentedLevel 10 = [(.binary, "^")] ∧
+    sameOps [(.binary, "^")] (documentedLevel 9) = false := by decide
+
+/-- **Every two binary operators are ordered by the grammar of this build as by the document**: for all 20 × 20 pairs of the binary
+    operators of the sub-language (the 16 of `BinOp` and `&&`, `||`, `in`, `!in`), both are documented (precedence 3–13) and declared
+    in the grammar with a binary rule, and `a` binds tighter than / as tight as `b` in config_parser.yy exactly when the document says
+    so.  (The pairwise form of `precedence_matches_reference`, stated on the operators the MODEL evaluates.) -/
+theorem binary_operators_ordered_as_documented :
+    (allBinarySyms.all fun a => allBinarySyms.all fun b => orderedAlike a b) = true := by decide
+
+/-- every operator of the model (`BinOp`, value-operators.cpp) has exactly ONE row among the document's binary levels -/
+theorem every_operator_documented_once (op : BinOp) :
+    (documented.filter (fun r => r.2 == op.sym && 3 ≤ r.1 && r.1 ≤ 13)).length = 1 := by
+  cases op <;> decide
+
+/-- non-vacuous: `&` is documented at 9 and `^` at 10, the grammar declares `&` one line later (tighter) than `^`; a pair declared
+    the other way round is rejected -/
+example : docLevelOf "&" = some 9 ∧ docLevelOf "^" = some 10 ∧ orderedAlike "^" "&" = true ∧ orderedAlike "^" "?" = false := by decide
 
 /-! ## 2. Evaluation -/
 
@@ -291,14 +336,107 @@ theorem callback_iteration_over_snapshot (f : Nat) (fr : Frame N) (name : String
     eval (f + 1) fr (.call (.native name) (.arr a) (cb :: rest)) st = eval f fr (.iter kind cb xs []) st := by
   cases kind <;> simp_all [eval, stepCall]
 
+/-! ### round 4: array equality, Array#join -/
+
+/-- **Array `==` / `!=`** (value-operators.cpp:159-175), for every heap: an array equals itself; two DIFFERENT arrays of DIFFERENT
+    length are unequal whatever their elements (in particular `[] == [1]` and `[1, 2] == [1, 2, 3]` are false — the comparison never
+    reads past the shorter array). -/
+theorem array_equality_identity_and_length (a b : Addr) (st : State N) (xs ys : List (Value N))
+    (ha : st.arr? a = some xs) (hb : st.arr? b = some ys) :
+    binop .eq (.arr a) (.arr a) st = (.ok (.bool true), st) ∧
+    binop .ne (.arr a) (.arr a) st = (.ok (.bool false), st) ∧
+    (a ≠ b → xs.length ≠ ys.length →
+      binop .eq (.arr a) (.arr b) st = (.ok (.bool false), st) ∧ binop .ne (.arr a) (.arr b) st = (.ok (.bool true), st)) := by
+  have hs : ∀ c d : Addr, eqScalar (N := N) (.arr c) (.arr d) = none := by
+    intro c d; simp [eqScalar, Value.isNumber, Value.isBoolean, Value.isString, Value.isEmpty, Value.isObject]
+  refine ⟨?_, ?_, ?_⟩
+  · simp [binop, binScalar, hs, valEq]
+  · simp [binop, binScalar, hs, valEq]
+  · intro hab hl
+    have hab' : (a == b) = false := by simpa using hab
+    constructor <;> simp [binop, binScalar, hs, valEq, hab', ha, hb, hl]
+
+/-- **Array#join** (array.cpp:300-318 through array-script.cpp): the native hands the array's elements to `Array::Join`; joining the
+    EMPTY array answers Empty (no element is read) for every separator and state; joining strings `x₀ … xₙ` answers
+    `x₀ ++ sep ++ x₁ ++ … ++ sep ++ xₙ` — for every separator, list and state, and the state is unchanged. -/
+theorem array_join_folds_with_separator (a : Addr) (sep : Value N) (rest : List (Value N)) (st : State N) (xs : List (Value N))
+    (ha : st.arr? a = some xs) :
+    nativePure "Array#join" (.arr a) (sep :: rest) st = some (joinValues sep xs true .empty st) ∧
+    joinValues sep [] true .empty st = (.ok .empty, st) ∧
+    (∀ (s x : String) (r : List String),
+      joinValues (.str s) ((x :: r).map Value.str) true .empty st = (.ok (.str (r.foldl (fun acc y => acc ++ s ++ y) x)), st)) := by
+  refine ⟨?_, by simp [joinValues], ?_⟩
+  · unfold nativePure
+    simp [ha]
+  · intro s x r
+    simp [joinValues, binop, binScalar, numPairStrict, strPair, Value.isNumber, Value.isString, Value.isEmpty, Value.toStr,
+      join_strings_acc]
+
+/-- **`!=` is the negation of `==`** for every pair of operands and every heap (scalars, containers, mixed): whenever `==` answers a
+    Boolean `!=` answers its negation in the same state, and whenever `==` does not answer (comparison budget on self-containing
+    arrays) neither does `!=`. -/
+theorem operator_ne_negates_eq (l r : Value N) (st : State N) :
+    binop .ne l r st =
+      (match binop .eq l r st with
+       | (.ok (.bool b), s) => (.ok (.bool !b), s)
+       | e => e) := by
+  unfold binop
+  simp only [binScalar]
+  cases h : eqScalar l r with
+  | some b => simp
+  | none =>
+    simp
+    cases h2 : valEq 64 st l r <;> simp
+
+/-- **`a !in b` is the negation of `a in b`** (expression.cpp:385-417) for all operands, frames, states and fuel: same evaluation
+    order (right operand first), same errors, same final state, negated Boolean. -/
+theorem not_in_negates_in (f : Nat) (fr : Frame N) (a b : Expr N) (st : State N) :
+    eval f fr (.expr (.notIn a b)) st =
+      (match eval f fr (.expr (.isIn a b)) st with
+       | (.val .ok (.bool r), s) => (.val .ok (.bool !r), s)
+       | e => e) := by
+  cases f with
+  | zero => simp [eval]
+  | succ f =>
+    simp only [eval, stepExpr]
+    split
+    · rfl
+    · simp only [stepNode]
+      generalize eval f _ (.expr b) _ = rb
+      obtain ⟨ob, s1⟩ := rb
+      cases ob with
+      | val c vb =>
+        cases c <;> simp only [bindV]
+        by_cases he : vb.isEmpty = true
+        · simp [he]
+        · simp only [he]
+          cases vb <;> simp
+          rename_i ba
+          generalize eval f _ (.expr a) s1 = ra
+          obtain ⟨oa, s2⟩ := ra
+          cases oa with
+          | val c2 va =>
+            cases c2 <;> simp only
+            cases arrContains s2 ((s2.arr? ba).getD []) va <;> simp
+          | _ => simp
+      | _ => simp [bindV]
+
+/-- **`array - []`** (value-operators.cpp:267-292): subtracting an empty array answers a NEW array holding exactly the left operand's
+    elements, for every heap and element list (no element is compared, nothing raises). -/
+theorem array_minus_empty_array (a b : Addr) (st : State N) (xs : List (Value N))
+    (ha : st.arr? a = some xs) (hb : st.arr? b = some []) :
+    binop .sub (.arr a) (.arr b) st = ((.ok (.arr (st.alloc (.arr xs)).1)), (st.alloc (.arr xs)).2) := by
+  simp [binop, binScalar, numPairStrict, arrPair, Value.isNumber, Value.isArray, Value.isEmpty, ha, hb, arrContains]
+  rw [foldr_keeps_all _ (by intro x acc; rfl)]
+
 /-- **Whole trace**: for EVERY program and fuel, whatever the model answers inside the protocol (a value, a script error, the
-    recursion error) — printed as the harness prints the real evaluator's answer, for all four observations of a program (minimal
-    text, fully parenthesised text, second compilation, second evaluation of the same expression: the model is a function of the
-    AST, so all four are this one answer) — passes every clause of `Spec.checkProgram`: no crash, deterministic, deterministic for
-    one expression, parenthesisation-independent, parses, value-or-script-error.  With `total_or_error` (never an internal error)
+    recursion error) — printed as the harness prints the real evaluator's answer, for all five observations of a program (minimal
+    text, fully parenthesised text, second compilation, second evaluation of the same expression, text parenthesised per the
+    DOCUMENTED table: the model is a function of the AST, so all five are this one answer) — passes every clause of `Spec.checkProgram`: no crash, deterministic, deterministic for
+    one expression, parenthesisation-independent (grammar's table and documented table), parses, value-or-script-error.  With `total_or_error` (never an internal error)
     the only outcomes outside the protocol are fuel exhaustion and the explicitly unmodelled cases. -/
 theorem model_trace_meets_spec (canon : State N → Value N → String) (fuel : Nat) (prog : List (Expr N)) (r : String)
-    (h : renderOut canon (run fuel prog) = some r) : Spec.checkProgram ⟨r, r, r, r⟩ = none := by
+    (h : renderOut canon (run fuel prog) = some r) : Spec.checkProgram ⟨r, r, r, r, r⟩ = none := by
   generalize run fuel prog = res at h
   obtain ⟨o, st⟩ := res
   cases o with
@@ -374,6 +512,54 @@ private def var (x : String) (e : Expr Int) : Expr Int := .set (.index (.scope .
 private def outNum (r : Res Int) : Option Int := match r with | (.val _ (.num n), _) => some n | _ => none
 private def outErr (r : Res Int) : Option ErrKind := match r with | (.err (.script k _), _) => some k | _ => none
 
+/-! ### the document's own examples (table "Operators", column "Examples (Result)") -/
+
+private def outV (r : Res Int) : Option (Value Int) := match r with | (.val .ok v, _) => some v | _ => none
+
+/-- the examples of the document's operator table whose operands and results are numbers, Booleans or strings, as
+    (example, documented result); `5m` is 300.  (The two `in` examples are checked by the compiled model only: deep equality is not
+    kernel-reducible.) -/
+def docExamples : List (Expr Int × Expr Int) := [
+  (.lnot (.str "Hello"), .bool false), (.lnot (.bool false), .bool true),
+  (.bin .mul (.num 300) (.num 10), .num 3000), (.bin .div (.num 300) (.num 5), .num 60), (.bin .mod (.num 17) (.num 12), .num 5),
+  (.bin .add (.num 1) (.num 3), .num 4), (.bin .add (.str "hello ") (.str "world"), .str "hello world"), (.bin .sub (.num 3) (.num 1), .num 2),
+  (.bin .shl (.num 4) (.num 8), .num 1024), (.bin .shr (.num 1024) (.num 4), .num 64),
+  (.bin .lt (.num 3) (.num 5), .bool true), (.bin .gt (.num 3) (.num 5), .bool false), (.bin .le (.num 3) (.num 3), .bool true),
+  (.bin .ge (.num 3) (.num 3), .bool true), (.bin .eq (.str "hello") (.str "hello"), .bool true), (.bin .eq (.num 3) (.num 5), .bool false),
+  (.bin .ne (.str "hello") (.str "world"), .bool true), (.bin .ne (.num 3) (.num 3), .bool false),
+  (.bin .band (.num 7) (.num 3), .num 3), (.bin .xor (.num 17) (.num 12), .num 29), (.bin .bor (.num 2) (.num 3), .num 3),
+  (.and (.bool true) (.bool false), .bool false), (.and (.num 3) (.num 7), .num 7), (.and (.num 0) (.num 7), .num 0),
+  (.or (.bool true) (.bool false), .bool true), (.or (.num 0) (.num 7), .num 7),
+  (.cond (.bin .gt (.bin .mul (.num 2) (.num 3)) (.num 5)) (.num 1) (some (.num 0)), .num 1)]
+
+/-- the same scalar (number, Boolean or string): what the harness's canonical form compares -/
+def sameScalar : Value Int → Value Int → Bool
+  | .num a, .num b => a == b
+  | .bool a, .bool b => a == b
+  | .str a, .str b => a == b
+  | _, _ => false
+
+def exampleHolds (p : Expr Int × Expr Int) : Bool :=
+  match outV (run 60 [p.1]), outV (run 60 [p.2]) with
+  | some a, some b => sameScalar a b
+  | _, _ => false
+
+/-- FULL statement (false on the unchanged tree): every example of the document's operator table evaluates to its documented result.
+    **Partial**: all of them except `~true (false)` do — 27 examples, evaluated by the kernel on the exact instance of the model. -/
+theorem reference_examples_hold_in_model_partial : docExamples.all exampleHolds = true := by decide
+
+/-- **Counterexample** (finding F-C15g): the document says `~true (false)`; NegateExpression (expression.cpp) computes `~(long)1 = -2`,
+    and so does the faithful model. -/
+theorem reference_example_bitwise_not_counterexample :
+    (match outV (run 60 [.bnot (.bool true)]) with | some (.num n) => n == -2 | _ => false) = true ∧
+    exampleHolds (.bnot (.bool true), .bool false) = false := by decide
+
+/-- the clause accepts an example that yields its documented result and rejects one that yields another value, an error, or no pair -/
+example : Spec.checkDocExample "docex4" "v:[#40a7700000000000,#40a7700000000000]" = none := by decide
+example : Spec.checkDocExample "docex3" "v:[#c000000000000000,false]" = some "reference_example_as_documented" := by decide
+example : Spec.checkDocExample "docex4" "e" = some "reference_example_as_documented" := by decide
+example : Spec.checkDocExample "prec4" "v:#1" = none := by decide
+
 /-- `3 && 7 = 7`, `0 || 7 = 7` (reference table, rows 12/13). -/
 example : outNum (run 50 [.and (.num 3) (.num 7)]) = some 7 := by decide
 example : outNum (run 50 [.or (.num 0) (.num 7)]) = some 7 := by decide
@@ -401,19 +587,40 @@ theorem array_join_counterexample :
      | (.val _ (.str s), _) => s == "1,a" | _ => false) = true := by
   decide
 
+/-- `["a", "b", "c"].join("-")` is "a-b-c" and `[].join(",")` is null (through parser-level AST, method lookup and native call) -/
+example : (match run 60 [.call (.index (.array [.str "a", .str "b", .str "c"]) (.str "join")) [.str "-"]] with
+     | ((.val _ (.str s), _) : Res Int) => s == "a-b-c" | _ => false) = true ∧
+    (match run 60 [.call (.index (.array []) (.str "join")) [.str ","]] with
+     | ((.val _ .empty, _) : Res Int) => true | _ => false) = true := by decide
+
+/-- the hypotheses of `array_equality_identity_and_length` hold in a concrete heap: `[1, 2]` at address 0, `[1, 2, 3]` at address 1 —
+    `[1, 2] == [1, 2, 3]` is false, `!=` true, and each array equals itself -/
+example :
+    let st : State Int := { heap := #[.arr [.num 1, .num 2], .arr [.num 1, .num 2, .num 3]], globals := [], maxDepth := 0 }
+    binop .eq (.arr 0) (.arr 1) st = (.ok (.bool false), st) ∧ binop .ne (.arr 0) (.arr 1) st = (.ok (.bool true), st) ∧
+    binop .eq (.arr 1) (.arr 1) st = (.ok (.bool true), st) := by
+  intro st
+  have h := array_equality_identity_and_length (N := Int) 0 1 st [.num 1, .num 2] [.num 1, .num 2, .num 3] rfl rfl
+  have h' := array_equality_identity_and_length (N := Int) 1 0 st [.num 1, .num 2, .num 3] [.num 1, .num 2] rfl rfl
+  exact ⟨(h.2.2 (by decide) (by decide)).1, (h.2.2 (by decide) (by decide)).2, h'.1⟩
+
 /-! **F-C15f (repaired by 1f98393)**: Array#map/filter/any/all walked the std::vector of the array while the callback could
     reallocate it; they now iterate over a snapshot — which is what the model always did (`callback_iteration_over_snapshot` above);
     programs whose callbacks modify the iterated array are in the compared domain (family `cbmut`), the old witnesses are regression
     lines of corpus/C15/fixed_c15f_callback_mutates_iterated_array.ops. -/
 
 /-- the spec predicate rejects a crash, a non-deterministic and a parenthesisation-dependent observation. -/
-example : Spec.checkProgram ⟨"crash:sig=8", "crash:sig=8", "crash:sig=8", ""⟩ = some "no_crash" := by decide
-example : Spec.checkProgram ⟨"v:#1", "v:#1", "v:#2", "v:#1"⟩ = some "deterministic" := by decide
-example : Spec.checkProgram ⟨"v:#1", "v:#2", "v:#1", "v:#1"⟩ = some "precedence_as_declared" := by decide
-example : Spec.checkProgram ⟨"v:#1", "v:#1", "v:#1", "v:#1"⟩ = none := by decide
+example : Spec.checkProgram ⟨"crash:sig=8", "crash:sig=8", "crash:sig=8", "", ""⟩ = some "no_crash" := by decide
+example : Spec.checkProgram ⟨"v:#1", "v:#1", "v:#2", "v:#1", "v:#1"⟩ = some "deterministic" := by decide
+example : Spec.checkProgram ⟨"v:#1", "v:#2", "v:#1", "v:#1", ""⟩ = some "precedence_as_declared" := by decide
+example : Spec.checkProgram ⟨"v:#1", "v:#1", "v:#1", "v:#1", "v:#1"⟩ = none := by decide
+/-- `6 ^ 3 & 1` written as the document allows (no parentheses: `&` binds tighter) answers 1 where `6 ^ (3 & 1)` answers 7: rejected,
+    although the text printed per the grammar's own (changed) table agrees with the parenthesised one -/
+example : Spec.checkProgram ⟨"v:#7", "v:#7", "v:#7", "v:#7", "v:#1"⟩ = some "precedence_as_documented" := by decide
+example : Spec.checkProgram ⟨"v:#7", "v:#7", "v:#7", "v:#7", "crash:sig=11"⟩ = some "no_crash" := by decide
 /-- one compiled expression that answers differently the second time (a literal array built once and mutated) is rejected -/
-example : Spec.checkProgram ⟨"v:[#1,#2,#3]", "v:[#1,#2,#3]", "v:[#1,#2,#3]", "v:[#1,#2,#3,#3]"⟩ = some "deterministic_same_expression" := by decide
-example : Spec.checkProgram ⟨"v:#1", "v:#1", "v:#1", "crash:sig=11"⟩ = some "no_crash" := by decide
+example : Spec.checkProgram ⟨"v:[#1,#2,#3]", "v:[#1,#2,#3]", "v:[#1,#2,#3]", "v:[#1,#2,#3,#3]", ""⟩ = some "deterministic_same_expression" := by decide
+example : Spec.checkProgram ⟨"v:#1", "v:#1", "v:#1", "crash:sig=11", ""⟩ = some "no_crash" := by decide
 
 /-- the clauses stated against the reference's answer: a recursion error although the reference nests only 40 frames, a
     `use()` closure whose calls influence each other, a raising `array - array` are rejected; a recursion error at real
